@@ -668,13 +668,16 @@ def _search_wildcard(elem, session, query=None):
     if value is None or value == "":
         value = "*"
 
+    # Only '*' and '?' are wild cards: '%' and '_' (and the escape character
+    #   itself) match themselves
+    value = value.replace("\\", "\\\\").replace("%", "\\%").replace("_", "\\_")
     value = value.replace("*", "%")
     value = value.replace("?", "_")
 
     if not query:
         query = session.query(Instance)
 
-    return query.filter(attr.like(value))
+    return query.filter(attr.like(value, escape="\\"))
 
 
 # Database table setup stuff
